@@ -391,21 +391,36 @@ def check(tier: str) -> Result:
     ok = False
     why = txt(r, 6, 200)
     M = None
+    def group_read(t: T):
+        """(match term, group name) for the equivalent ways of reading a named group: m.group('a', 'b')[i] (or unpacked),
+        m.group('a'), m['a'], m.groupdict()['a']."""
+        t = uncopy(strip_cast(t))
+        pj = as_proj(t)
+        if pj is not None:
+            G, i = pj
+            if G.kind == "call" and G.args[0].kind == "attr" and G.args[0].args[1] == "group" and all(x.kind == "const" for x in G.args[1]) and 0 <= i < len(G.args[1]):
+                return G.args[0].args[0], G.args[1][i].args[0]
+        if t.kind == "call" and t.args[0].kind == "attr" and t.args[0].args[1] == "group" and len(t.args[1]) == 1 and t.args[1][0].kind == "const":
+            return t.args[0].args[0], t.args[1][0].args[0]
+        if t.kind == "index" and t.args[1].kind == "const" and isinstance(t.args[1].args[0], str):
+            base = uncopy(t.args[0])
+            if base.kind == "call" and base.args[0].kind == "attr" and base.args[0].args[1] == "groupdict" and not base.args[1]:
+                return base.args[0].args[0], t.args[1].args[0]
+            return base, t.args[1].args[0]
+        return None
+
     if r.kind == "tuple" and len(r.args[0]) == 2:
         a, b = r.args[0]
-        pa = as_proj(a)
-        pb = as_proj(b.args[1][0]) if ext_name(b) == "builtins.int" and b.args[1] else None
-        if pa is not None and pb is not None and pa[1] == 0 and pb[1] == 1 and pb[0] is pa[0]:
-            G = pa[0]
-            if G.kind == "call" and G.args[0].kind == "attr" and G.args[0].args[1] == "group" and \
-                    [x.args[0] if x.kind == "const" else None for x in G.args[1]] == ["name", "version"]:
-                M = G.args[0].args[0]
-                meth = M.args[0].args[1] if (M.kind == "call" and M.args[0].kind == "attr") else None
-                # `$` also matches before a trailing newline: only fullmatch (or match with \Z) rejects "name-v0\n"
-                whole = meth == "fullmatch" or (meth == "match" and info.get("end_string"))
-                ok = M.kind == "call" and M.args[0].kind == "attr" and M.args[0].args[0] is RE and bool(whole) and M.args[1] == (idp,)
-                if meth == "match" and not info.get("end_string"):
-                    why += " -- .match with a `$` anchor accepts an id followed by a newline (malformed ids must be rejected)"
+        ga = group_read(a)
+        gb = group_read(b.args[1][0]) if ext_name(b) == "builtins.int" and b.args[1] else None
+        if ga is not None and gb is not None and ga[1] == "name" and gb[1] == "version" and ga[0] is gb[0]:
+            M = ga[0]
+            meth = M.args[0].args[1] if (M.kind == "call" and M.args[0].kind == "attr") else None
+            # `$` also matches before a trailing newline: only fullmatch (or match with \Z) rejects "name-v0\n"
+            whole = meth == "fullmatch" or (meth == "match" and info.get("end_string"))
+            ok = M.kind == "call" and M.args[0].kind == "attr" and M.args[0].args[0] is RE and bool(whole) and M.args[1] == (idp,)
+            if meth == "match" and not info.get("end_string"):
+                why += " -- .match with a `$` anchor accepts an id followed by a newline (malformed ids must be rejected)"
     res.add("C18.R1", f.loc(), "registration.parse_env_id", "returns (match.group('name'), int(match.group('version'))) of ENV_NAME_RE on the id", ok, why)
     # raising paths (path conditions of the raise statements reached from parse_env_id)
     rx = [(fn, node, path) for fn, node, path, _ in raise_exits(vfg)]
@@ -416,10 +431,10 @@ def check(tier: str) -> Result:
 
     def is_version_none(t, pol):
         if t.kind == "cmp" and t.args[0] == "is" and t.args[2] is NONE and pol:
-            pv = as_proj(t.args[1])
-            return pv is not None and pv[1] == 1 and M is not None and contains(pv[0], M)
-        pv = as_proj(t)
-        return pv is not None and pv[1] == 1 and not pol and M is not None and contains(pv[0], M)   # `if not version`
+            gv = group_read(t.args[1])
+            return gv is not None and gv[1] == "version" and M is not None and gv[0] is M
+        gv = group_read(t)
+        return gv is not None and gv[1] == "version" and not pol and M is not None and gv[0] is M   # `if not version`
 
     no_match = any(len(path) == 1 and is_no_match(*path[0][:2]) for _, _, path in rx)
     ver_none = any(len(path) == 2 and not is_no_match(*path[0][:2]) and is_no_match(path[0][0], not path[0][1]) and is_version_none(*path[1][:2]) for _, _, path in rx)
@@ -534,18 +549,26 @@ def check(tier: str) -> Result:
     res.add("C18.R3", f.loc(), "registration.make", "the id handed to parse_env_id is the caller's id unchanged", idflow,
             f"{len(pcalls)} call(s) of parse_env_id from make" if idflow else f"parse_env_id receives {[txt(vs.get(p0), 4, 80) if vs.get(p0) is not None else None for vs, _ in pcalls]}, not the id parameter itself")
     # get_env_id receives (name, version) = the two components of parse_env_id's result, in that order, in make and register
+    # (whatever helper the two calls sit in: the facts are taken from the value-flow run of make / register)
     gp = fns["get_env_id"].params
-    for caller_name, vv, entry_param in (("make", v3, idp), ("register", v2, ps[0] if ps else None)):
-        gcalls = [(vars_, node) for cf, vars_, caller, node, _ in vv.callsites if cf is fns["get_env_id"] and caller is fns[caller_name]]
-        okg = bool(gcalls)
-        whyg = f"{len(gcalls)} call(s)"
-        for vars_, node in gcalls:
-            a0, a1 = (uncopy(strip_cast(vars_.get(gp[0]))) if vars_.get(gp[0]) is not None else None), (uncopy(strip_cast(vars_.get(gp[1]))) if vars_.get(gp[1]) is not None else None)
-            p0_, p1_ = (as_proj(a0) if a0 is not None else None), (as_proj(a1) if a1 is not None else None)
-            good = p0_ is not None and p1_ is not None and p0_[1] == 0 and p1_[1] == 1 and p0_[0] is p1_[0]
-            if not good:
+    pp = fns["parse_env_id"].params
+    for caller_name, vv in (("make", v3), ("register", v2)):
+        gcalls = [vars_ for cf, vars_, caller, node, _ in vv.callsites if cf is fns["get_env_id"]]
+        presults = [uncopy(res_) for cf, vars_, caller, node, res_ in vv.callsites if cf is fns["parse_env_id"] and res_ is not None]
+        okg = bool(gcalls) and bool(presults)
+        whyg = f"{len(gcalls)} call(s) of get_env_id, {len(presults)} of parse_env_id"
+        comps = []
+        for pr_ in presults:
+            if pr_.kind == "tuple" and len(pr_.args[0]) == 2:
+                comps.append((uncopy(strip_cast(pr_.args[0][0])), uncopy(strip_cast(pr_.args[0][1]))))
+            else:
+                comps.append((vv.mk_proj(pr_, 0, 2), vv.mk_proj(pr_, 1, 2)))
+        for vars_ in gcalls:
+            a0 = uncopy(strip_cast(vars_[gp[0]])) if vars_.get(gp[0]) is not None else None
+            a1 = uncopy(strip_cast(vars_[gp[1]])) if vars_.get(gp[1]) is not None else None
+            if not any(a0 is c0 and a1 is c1 for c0, c1 in comps):
                 okg = False
-                whyg = f"get_env_id({txt(a0, 3, 50) if a0 is not None else None}, {txt(a1, 3, 50) if a1 is not None else None}): not (name, version) of one parse_env_id result in that order"
+                whyg = f"get_env_id({txt(a0, 3, 50) if a0 is not None else None}, {txt(a1, 3, 50) if a1 is not None else None}): not (name, version) of the parse_env_id result, in that order"
         res.add("C18.R3", fns[caller_name].loc(), "registration." + caller_name, "the canonical id is get_env_id(name, version) of the parsed id, components in order", okg, whyg)
     # ------------------------------------------------------------------ R6 module state of registration.py
     scanned, mw = module_state_writes(m, REGQ.split(".")[-1])
